@@ -96,6 +96,8 @@ def generate(run_seed: int, tier: str) -> dict:
             rng.shuffle(ids)
         datas[f"D{i}"] = {"ids": ids, "container": core.weighted(rng, [("pandas", 6), ("dict", 2), ("arrow", 1)]),
                           "index": core.weighted(rng, [("rid", 3), ("range", 2), ("str", 1)])}
+        if "a|b" in u["cols"] and rng.random() < 0.5:
+            datas[f"D{i}"]["without"] = ["a_b"]  # this caller's frame has no column named like the shared alias
     if swarm.random() < 0.5:
         cats = [c for c in u["cols"] if u["cols"][c]["kind"] in ("text_object", "text_default", "category")]
         nums = [c for c in u["cols"] if u["cols"][c]["kind"] in ("float", "int")]
@@ -356,6 +358,9 @@ class World:
             obj = world.take(self.sc["universe"], r["ids"], container=r["container"], index=r["index"], mutate=r.get("mutate"))
             if r.get("drop_col"):
                 obj = obj.drop(columns=[r["drop_col"]])
+            if r.get("without"):
+                keep = [c for c in self.sc["universe"]["cols"] if c not in r["without"]]
+                obj = world.take(self.sc["universe"], r["ids"], container=r["container"], index=r["index"], mutate=r.get("mutate"), keep_cols=keep)
             self.data[name] = obj
         return self.data[name]
 
